@@ -3,6 +3,7 @@ package codec
 import (
 	"bytes"
 	"fmt"
+	"strings"
 	"testing"
 
 	pkts "github.com/energomonitor/bisquitt/packets"
@@ -255,6 +256,34 @@ func c21gens() []c21gen {
 	}
 }
 
+func structStr(p pkts.Packet) string {
+	s := fmt.Sprintf("%#v", p)
+	s = strings.ReplaceAll(s, "[]uint8(nil)", "[]uint8{}")
+	s = strings.ReplaceAll(s, "[]byte(nil)", "[]uint8{}")
+	return s
+}
+
+func firstDiff(a, b string) (string, string) {
+	i := 0
+	for i < len(a) && i < len(b) && a[i] == b[i] {
+		i++
+	}
+	lo := i - 60
+	if lo < 0 {
+		lo = 0
+	}
+	cut := func(s string) string {
+		hi := i + 60
+		if hi > len(s) {
+			hi = len(s)
+		}
+		return "..." + s[lo:hi] + "..."
+	}
+	return cut(a), cut(b)
+}
+
+func accAdd(a *acc, v explore.Violation) { a.add(v) }
+
 func TestC21(t *testing.T) {
 	rep := explore.NewReport("C21", "exploration")
 	th := explore.Tier() == "thorough"
@@ -311,6 +340,17 @@ func TestC21(t *testing.T) {
 					return
 				}
 				got, _ := snmap.FromReal(q)
+				// whole-struct equality (what a user comparing packets sees), nil and empty slices identified
+				if a, b := structStr(p), structStr(q); a != b {
+					a2, b2 := a, b
+					if len(a2) > 300 {
+						a2, b2 = firstDiff(a, b)
+					}
+					a_ := explore.Violation{Property: "C21", Sig: "decoded-struct-differs:" + name, Detail: fmt.Sprintf("built %s, decoded %s", a2, b2)}
+					a_.History = []string{hexs(enc)}
+					a_.Scenario = name
+					accAdd(results[i], a_)
+				}
 				if !snmap.Equal(got, want) {
 					a.add(explore.Violation{Property: "C21", Sig: "roundtrip-differs:" + name, Detail: fmt.Sprintf("built %v, decoded %v (datagram %s)", snmap.Norm(want), snmap.Norm(got), hexs(enc))})
 				}
